@@ -42,7 +42,8 @@ func propC26(e *Env) {
 	os.Mkdir(dir, 0o755)
 	e.S.StmtPreempt = e.Choose("knob", 3) == 1
 	names := []string{"a.mtail", "b.mtail", "c.mtail", ".x.mtail", "notes.txt", "a.mtail.bak", "d.mtail.txt"}
-	files := map[string]*c26File{} // what is on disk (regular files directly in dir)
+	files := map[string]*c26File{}   // what is on disk (regular files directly in dir)
+	removed := map[string]*c26File{} // the content a file had when it was last removed
 	nextV := map[string]int{}
 	writeFile := func(name string, broken bool) {
 		nextV[name]++
@@ -209,11 +210,19 @@ func propC26(e *Env) {
 				desc = "nop"
 			}
 		case 4:
-			if _, ok := files[n]; ok {
+			if f, ok := files[n]; ok {
 				os.Remove(filepath.Join(dir, n))
+				removed[n] = f
 				delete(files, n)
 				desc = "remove " + n
 				e.Probe("remove")
+			} else if f, ok := removed[n]; ok {
+				// the very same bytes come back under the same name
+				os.WriteFile(filepath.Join(dir, n), []byte(c26Source(n, f.version, f.broken)), 0o644)
+				files[n] = f
+				delete(removed, n)
+				desc = fmt.Sprintf("put back %s v%d unchanged", n, f.version)
+				e.Probe("put_back_identical")
 			} else {
 				desc = "nop"
 			}
